@@ -346,6 +346,19 @@ def rule_range_bounds(ctx):
                 ctx.check(ok, fq, f"range bounds: {detail}", "target_dir.(path, upper) is not populated only by Scheduler.initialize with (P, dir_range_upper(P))", "target_dir rows are (P, dir_range_upper(P)) from Scheduler.initialize", where=where, writers=sorted(writers))
             else:
                 ctx.bad(fq, f"range bounds: {detail}", "range bounds of unknown provenance", where=where)
+    # 3. the sites that select "outputs under a directory target" are siblings: each of them keeps the range
+    have = {fq for fq, _ in seen}
+    for fq, what in RANGE_SITES.items():
+        ctx.prog.func(fq)
+        ctx.check(fq in have, fq, f"selects by label range ({what})", f"{fq} no longer restricts its selection to the label range of the directory: it selects outputs anywhere ({what}), unlike its sibling sites {sorted(have)}", "range present")
+
+
+# functions whose SQL selects the outputs under a directory target (confirmed by reading; appendix A.7)
+RANGE_SITES = {
+    "scheduler.Scheduler._update_meta_after": "elevation of DEFAULT producers under a directory target",
+    "workflow.Workflow.reconcile_targets": "flagging of producers under a newly named directory target",
+    "workflow.Workflow.has_regular_output_under": "the 'directory target matched nothing' report",
+}
 
 
 def _sep_terminated(fi, arg, call) -> tuple[bool, str]:
@@ -517,6 +530,7 @@ RULES = [
 
 
 MUTANTS = [
+    Mutant("report-without-range", "workflow.py", in_function("Workflow.has_regular_output_under", replace_once('            "AND onode.label >= ? AND onode.label < ? "\n', "").__call__ if False else (lambda s: s.replace('            "AND onode.label >= ? AND onode.label < ? "\n', "", 1).replace("            (dir_path, dir_range_upper(dir_path)),\n", "", 1) if '            "AND onode.label >= ? AND onode.label < ? "\n' in s else None)), ("R-C18-2",)),
     Mutant("like-back", "sqlite3.py", replace_once('return f"substr({column}, 1, {len(prefix):d}) = ?", prefix',
            'return f"{column} LIKE ? ESCAPE \'\\\\\'", prefix.replace("%", "\\\\%") + "%"'), ("R-C18-1",)),
     Mutant("like-no-escape", "sqlite3.py", replace_once('return f"substr({column}, 1, {len(prefix):d}) = ?", prefix',
